@@ -476,7 +476,8 @@ class IntegerSequence(SequenceBase):
             prev_point = sequence_point
             sequence_point = self.get_next_point(sequence_point)
         if self.exclusions and prev_point in self.exclusions:
-            return self.get_nearest_prev_point(prev_point)
+            # (only the start point can be an excluded prev_point here)
+            return self.get_prev_point(prev_point)
         return prev_point
 
     def get_next_point(self, point):
